@@ -41,6 +41,9 @@ CLAIMED = {
              "by differential evaluation on every run; over the batch life-cycle model every accepted record is resolved at "
              "most once, flush()/stop() can return only when everything accepted is resolved, with idempotence retriable "
              "faults never fail a record, and a fault-free sender round resolves the head batch (liveness as rounds: partial). "
+             "The Produce-response dispatch (handle_response, _can_retry, the retriable/invalid_metadata attributes of "
+             "errors.py) is regenerated from source on every run: with idempotence no retriable code ever fails a batch, and "
+             "for every integer code a reply has exactly one outcome (resolved, failed or re-enqueued). "
              "The real producer runs under the simulator (acks 0/1/all, produce v0..v7, CreateTime/LogAppendTime, flush/stop at "
              "arbitrary times, fault schedules followed by quiet) with monitors comparing every future's metadata with the "
              "record sitting at that offset in the simulated log.",
@@ -188,14 +191,18 @@ CLAIMED = {
              "changes buffer or position and a seek takes effect for the very next record; nothing comes from paused or "
              "filtered-out partitions; fault-free rounds strictly advance, including over control, aborted and emptied batches, and "
              "reach the log end (model-level liveness: partial). The fetcher model refines an API-level specification automaton that "
-             "is itself proved exact. The real consumer runs under the deterministic simulator; every per-partition boundary trace, "
+             "is itself proved exact. The per-partition error dispatch of a Fetch response is regenerated from "
+             "Fetcher._proc_fetch_request on every run: for every integer error code only OFFSET_OUT_OF_RANGE (with a reset "
+             "policy) makes the consumer give up its position, errors reach the application only for out-of-range without a "
+             "policy or an unauthorized topic, every unnamed code changes nothing. "
+             "The real consumer runs under the deterministic simulator; every per-partition boundary trace, "
              "application trace and scan must be accepted inside Coq with equal outputs, and independent monitors state the property "
              "on the simulated logs.",
         note="Trusted: Coq kernel; hand model tied by trace acceptance; which records of a batch are visible comes from the simulated "
              "log (exactness of the filter is C08's theorem); simkit and refcodec as oracle; observation wrappers installed from "
              "outside; one scheduler order per schedule (ASLR off for reproducibility). RecordTooLarge, TopicAuthorizationFailed and "
              "two in-flight fetches to different leaders are not simulated. No axioms.",
-        technique="Coq invariant and refinement proofs over an LTS model and spec automaton + trace acceptance of the real consumer under deterministic simulation + monitors",
+        technique="Coq invariant and refinement proofs over an LTS model and spec automaton + dispatch chain translated from source + trace acceptance of the real consumer under deterministic simulation + monitors",
         design="5/C03"),
     "C10": dict(
         text="Machine-checked proof (Coq 8.16, no axioms). For every byte list, both validate_crc settings and every decompression "
